@@ -47,6 +47,16 @@ func freshDir(name string) string {
 }
 
 // Key is a key pair.
+// myIP is a loopback address that only this process uses (Linux routes all of 127/8 to lo). Every
+// listener the harness owns (scripted servers, proxies, sinks) binds to it and every peer entry that
+// is meant to be unreachable points at it, so that scenario processes running at the same time - of
+// this check or of another one - can never reach each other through a recycled port number. The real
+// server binds 127.0.0.1 (repository constant) and is only ever addressed there.
+var myIP = func() string {
+	p := os.Getpid()
+	return fmt.Sprintf("127.%d.%d.%d", 1+p%250, (p/250)%250, 1+(p/62500)%250)
+}()
+
 type Key struct {
 	Pub  glow.PublicKey
 	Priv glow.PrivateKey
